@@ -415,6 +415,9 @@ func (tic *TermInCommittee) validatePreprepare(ppm *interfaces.PreprepareMessage
 
 	header := ppm.Content().SignedHeader()
 	sender := ppm.Content().Sender()
+	if header.MessageType() != protocol.LEAN_HELIX_PREPREPARE { // also covers the proposal embedded in a NEW_VIEW
+		return fmt.Errorf("signed header of the proposal says %s, not PREPREPARE", header.MessageType())
+	}
 	if err := tic.keyManager.VerifyConsensusMessage(header.BlockHeight(), header.Raw(), sender); err != nil {
 		tic.logger.ConsensusTrace("failed to verify preprepare - maybe a committee mismatch?", err, log.Stringable("sender", sender))
 
@@ -691,6 +694,9 @@ func (tic *TermInCommittee) validateViewChangeVotes(targetBlockHeight primitives
 		if confirmationBlockHeight != targetBlockHeight {
 			return fmt.Errorf("confirmation of memberId %s has block height %d which is different than targetBlockHeight %d ",
 				senderMemberIdStr, confirmationBlockHeight, targetBlockHeight)
+		}
+		if confirmation.SignedHeader().MessageType() != protocol.LEAN_HELIX_VIEW_CHANGE {
+			return fmt.Errorf("confirmation of memberId %s is a %s, not a VIEW_CHANGE", senderMemberIdStr, confirmation.SignedHeader().MessageType())
 		}
 		confirmationView := confirmation.SignedHeader().View()
 		if confirmationView != targetView {
